@@ -727,6 +727,8 @@ fn spawn_async_ao_list_in_task'''),
         ('bare-time-refused', 'brush-parser/src/parser/peg.rs', "if timed.is_none() && bang.is_empty() && seq.is_empty() {", "if bang.is_empty() && seq.is_empty() {"),
     ],
     'U27e': [
+        ('cursor-index-counts-only-the-characters-of-the-first-line', 'brush-parser/src/tokenizer.rs', "                self.cross_state.cursor.column += 1;\n            }\n            self.cross_state.cursor.index += 1;", "                self.cross_state.cursor.column += 1;\n                self.cross_state.cursor.index += 1;\n            }"),
+        ('column-not-reset-after-a-newline', 'brush-parser/src/tokenizer.rs', "                self.cross_state.cursor.line += 1;\n                self.cross_state.cursor.column = 1;", "                self.cross_state.cursor.line += 1;\n                self.cross_state.cursor.column = 0;"),
         ('token-start-read-after-it-was-taken', 'brush-parser/src/tokenizer.rs', "            start: Arc::new(std::mem::take(&mut self.start_position)),\n            end,", "            start: Arc::new({ let _ = std::mem::take(&mut self.start_position); std::mem::take(&mut self.start_position) }),\n            end,"),
         ('next-token-does-not-restart-at-the-cut', 'brush-parser/src/tokenizer.rs', "        end_position.clone_into(&mut self.start_position);\n", ""),
         ('operator-flag-left-set', 'brush-parser/src/tokenizer.rs', "        let token = if std::mem::take(&mut self.token_is_operator) {", "        let token = if self.token_is_operator {"),
